@@ -378,7 +378,7 @@ func replayRace(c *Ctx, raw json.RawMessage) {
 }
 
 func checkC14(c *Ctx) {
-	c.rule = "MC: 3 goroutines x 2 pooled objects x span requests, every interleaving of Acquire / Release / CAS-lock / bump / slice-unlock (9 steps): exclusive ownership, reset on recycle, disjoint span regions, exclusive lock; TLC finds the violation when fields are not cleared before Put. APALACHE: the conjunction of these invariants plus a strengthening (Ind_Concurrency.tla) is inductive for every span size, request size and run length (base case, inductive step, negative control, non-vacuity probes). TRACE: stress runs (8..24 goroutines, create/use/release cycles of BufferReader, BufferWriter, SkipDecoder, BytesSkipDecoder, ReaderSkipDecoder, ttheader and Base codecs with the span allocator on, concurrent Get on a shared map) with per-goroutine self-checking payloads over the poisoning pool double; the acquisition/release log (after Get / before Put, one mutex) must be enabled Acquire/Release actions and every self-check ok. RACE: the same driver built with -race against the real mcache, several seeds; any report is a violation."
+	c.rule = "MC: 3 goroutines x 2 pooled objects x span requests, every interleaving of Acquire / Release / CAS-lock / bump / slice-unlock (9 steps): exclusive ownership, reset on recycle, disjoint span regions, exclusive lock; TLC finds the violation when fields are not cleared before Put. APALACHE: the conjunction of these invariants plus a strengthening (Ind_Concurrency.tla) is inductive for every span size, request size and run length (base case, inductive step, negative control, non-vacuity probes). TLAPS: Proof_Concurrency.tla proves Spec => []IndInv for arbitrary sets of goroutines and objects (29 obligations; a negative control must fail). TRACE: stress runs (8..24 goroutines, create/use/release cycles of BufferReader, BufferWriter, SkipDecoder, BytesSkipDecoder, ReaderSkipDecoder, ttheader and Base codecs with the span allocator on, concurrent Get on a shared map) with per-goroutine self-checking payloads over the poisoning pool double; the acquisition/release log (after Get / before Put, one mutex) must be enabled Acquire/Release actions and every self-check ok. RACE: the same driver built with -race against the real mcache, several seeds; any report is a violation."
 	c.MC("MC_Concurrency.tla", "MC_Concurrency.cfg", 8)
 	// unbounded safety (Apalache): IndInv of Ind_Concurrency.tla is inductive for every span size >= 1, every request
 	// size and runs of any length (3 goroutines, 3 objects); the same step fails when fields are not cleared before
@@ -390,6 +390,11 @@ func checkC14(c *Ctx) {
 		for _, pr := range []string{"ProbeNoRegions", "ProbeNoBusy", "ProbeNoHeld"} {
 			c.Apalache("Ind_Concurrency.tla", "non-vacuity probe "+pr, true, "--cinit=ConstInit", "--init=IndInit", "--next=Next", "--inv="+pr, "--length=0")
 		}
+	}
+	// machine-checked proof (TLAPS) of the same inductive invariant for ANY set of goroutines and ANY set of objects
+	c.TLAPS("Proof_Concurrency.tla", "Spec => []IndInv for arbitrary G, Objs, SpanSize", false)
+	if c.Thorough() {
+		c.TLAPS("Proof_Concurrency_neg.tla", "negative control: ResetOnPut = FALSE", true)
 	}
 	var cases []json.RawMessage
 	for s := 0; s < c.Pick(6, 40); s++ {
